@@ -1281,7 +1281,10 @@ def check_recursion(rep, fx, reach):
     for comp in comps:
         # a cycle is identified by the functions somebody names; private helpers pulled out of (or into) it are part of the same
         # recursion: `f -> f` and `f -> f_item -> f` are one obligation
-        named = [c for c in comp if c in RECURSION_REVIEWED or c in vocab] or comp
+        # ... or, name-free, by its entries: the members somebody outside the cycle calls
+        cs = set(comp)
+        entries_ = [c for c in comp if any(k not in cs for k in fx.callers().get(c, ()))]
+        named = [c for c in comp if c in RECURSION_REVIEWED or c in vocab] or entries_ or comp
         key = 'C08:recursion:' + '+'.join(short(c).split('::')[-1] if len(named) > 1 else c for c in named)
         why_ok = RECURSION_REVIEWED.get(named[0]) if len(named) == 1 else None
         f0 = fx.fns[named[0]]
